@@ -55,9 +55,13 @@ def _mods():
 class Setup:
     """parent element, quadrature rule and shape tables (ground data of the real code), one element"""
 
-    def __init__(self, qdeg=2, degree=1):
+    def __init__(self, qdeg=2, degree=1, mode='plane strain'):
         Mechanics, FunctionSpace, Interpolants, QuadratureRule, Mesh, LinearElastic = _mods()
         self.degree = degree
+        self.mode = mode
+        self.axi = mode == 'axisymmetric'
+        # example vertices (axisymmetric: all radii > 0)
+        self.Xex = onp.asarray(REF) + (onp.array([1.0, 0.0]) if self.axi else 0.0)
         self.pe, self.pe1 = Interpolants.make_parent_elements(degree)
         self.qr = QuadratureRule.create_quadrature_rule_on_triangle(qdeg)
         self.shp = Interpolants.compute_shapes(self.pe, self.qr.xigauss)
@@ -75,7 +79,11 @@ class Setup:
         with jax.ensure_compile_time_eval():
             coords = X if self.degree == 1 else jnp.asarray(self.B) @ X
             mesh = Mesh.Mesh(coords, self.conns, None, self.pe, self.pe1, None, nodeSets, None)
-            return FunctionSpace.construct_function_space_from_parent_element(mesh, self.shp, self.qr)
+            return FunctionSpace.construct_function_space_from_parent_element(mesh, self.shp, self.qr,
+                                                                              mode2D='axisymmetric' if self.axi else 'cartesian')
+
+    def rand_tri(self, rng):
+        return self.Xex + rng.uniform(-0.2, 0.2, size=(3, 2))
 
     def dyn(self, coords, E, nu, rho, beta, gamma, nodeSets=None, fs=None):
         Mechanics, _, _, _, _, LinearElastic = _mods()
@@ -84,11 +92,13 @@ class Setup:
         # the factory may itself build tables with NumPy (parent-element shapes, quadrature rules) while a trace is active:
         # constant sub-computations are kept eager, only what depends on the traced arguments is staged (DESIGN 3.1)
         with jax.ensure_compile_time_eval():
-            return Mechanics.create_dynamics_functions(fs, 'plane strain', mat, Mechanics.NewmarkParameters(gamma=gamma, beta=beta))
+            return Mechanics.create_dynamics_functions(fs, self.mode, mat, Mechanics.NewmarkParameters(gamma=gamma, beta=beta))
 
 
 def _encoded(h):
     Mechanics, FunctionSpace, _, _, _, LinearElastic = _mods()
+    h.encoded(Mechanics.axisymmetric_element_gradient_transformation, Mechanics.axisymmetric_gradient,
+              FunctionSpace.compute_element_volumes_axisymmetric, Mechanics.parse_2D_to_3D_gradient_transformation)
     h.encoded(Mechanics.create_dynamics_functions, Mechanics.compute_newmark_lagrangian, Mechanics.kinetic_energy_density,
               Mechanics._compute_kinetic_energy, Mechanics._compute_element_masses, Mechanics._compute_strain_energy,
               Mechanics._compute_newmark_element_hessians,
@@ -123,9 +133,9 @@ def area2(X):
 BOX = 'E > 0, -1 < nu < 1/2, rho > 0, beta > 0, gamma > 0, dt > 0, twice the signed area of the triangle > 0'
 
 
-def _box(i):
+def _box(i, S=None):
     """the physical parameter box of the property (a superset of the unconditionally stable range 2 beta >= gamma >= 1/2);
-    only the inputs present in the case are constrained"""
+    only the inputs present in the case are constrained; axisymmetric setups: every vertex radius > 0"""
     out = []
     for k, lo, hi in (('E', 0.0, None), ('nu', -1.0, 0.5), ('rho', 0.0, None), ('beta', 0.0, None), ('gamma', 0.0, None), ('dt', 0.0, None)):
         if k in i:
@@ -134,6 +144,8 @@ def _box(i):
                 out.append(v_lt(s0(i[k]), hi))
     if 'X' in i:
         out.append(v_lt(0.0, area2(i['X'])))
+        if S is not None and S.axi:
+            out += [v_lt(0.0, i['X'][n, 0]) for n in range(3)]
     return out
 
 
@@ -146,6 +158,8 @@ def _params(rng):
     return [rng.uniform(0.5, 3.0), rng.uniform(-0.3, 0.45), rng.uniform(0.5, 2.0), rng.uniform(0.1, 0.5), rng.uniform(0.3, 0.9)]
 
 
+AXI_SPLIT = False
+TWO_PI = 2 * float(onp.pi)
 EX_PAR = dict(E=1.0, nu=0.3, rho=1.5, beta=0.25, gamma=0.5)
 Z32 = onp.zeros((3, 2))
 
@@ -196,13 +210,15 @@ def o2(h):
     """grad_U algorithmic_energy(U, Upred) = grad SE(U) + grad KE(A') with (V', A') = correct(U - Upred, ...) — the real
     closures on a triangle with SYMBOLIC vertices, moduli, density, beta, gamma, dt and fields"""
     _encoded(h)
-    h.bounds('one triangle with symbolic vertices: P1 with the 3-point rule (quick), additionally straight-sided P2 with the 3-point '
-             'rule (thorough); box: ' + BOX + '; U, Upred, V, A: all reals')
+    h.bounds('one triangle with symbolic vertices: P1 with the 3-point and 1-point rules in plane strain and P1 with the 3-point rule in '
+             'AXISYMMETRIC mode (axisymmetric function space, all vertex radii > 0) (quick), additionally straight-sided P2 with the '
+             '3-point rule and axisymmetric P1 with the 1-point rule (thorough); box: ' + BOX + '; U, Upred, V, A: all reals')
     h.assume_note('O2: symbolic denominators nonzero: 1+nu, 1-2nu, beta*dt^2 (implied by the box); Jacobian of the element map non-singular '
-                  '(jnp solve encoded relationally, hash-consed)')
+                  '(jnp solve encoded relationally, hash-consed)',
+                  'O2 axisymmetric: radius at every quadrature point nonzero (denominator of the hoop strain u_r/r; implied by vertex radii > 0)')
     h.outside('meshes of more than one element (energies are sums over elements; assembly is C14), element order > 2, '
               'non-linear-elastic materials (note: compute_element_hessians evaluates the strain-energy Hessian at U - Upred, which '
-              'coincides with the Hessian at U only for a quadratic strain energy), axisymmetric mode, pressure projection')
+              'coincides with the Hessian at U only for a quadratic strain energy), pressure projection')
 
     def run(S, tag, cap, split):
         def f(X, E, nu, rho, beta, gamma, U, Up, Vp, A, dt):
@@ -214,35 +230,41 @@ def o2(h):
             return gL, gS, MA
 
         Z = S.Z
-        ex = dict(X=onp.asarray(REF), **EX_PAR, U=Z + 0.1, Up=Z - 0.2, Vp=Z + 0.3, A=Z, dt=0.1)
-        smp = lambda rng: [_rand_tri(rng)] + _params(rng) + [rng.normal(size=Z.shape) for _ in range(4)] + [rng.uniform(0.05, 1.0)]
+        ex = dict(X=S.Xex, **EX_PAR, U=Z + 0.1, Up=Z - 0.2, Vp=Z + 0.3, A=Z, dt=0.1)
+        smp = lambda rng: [S.rand_tri(rng)] + _params(rng) + [rng.normal(size=Z.shape) for _ in range(4)] + [rng.uniform(0.05, 1.0)]
         c = Case(h, f, ex, sampler=smp, label='momentum_balance' + tag, validate=3 if not tag else 1)
 
         def spec(i, o):
             gL, gS, MA = o
             rhs = add(gS, MA)
             if split:   # one query per dof (P2: 1-4 s each; the monolithic disjunction needs 30-150 s)
-                return _box(i), [Eq(a, b, name='gradL_eq_gradSE_plus_M_Anew_dof%d' % k) for k, (a, b) in enumerate(zip(flat(gL), rhs))]
-            return _box(i), Eq(gL, rhs, name='gradL_eq_gradSE_plus_M_Anew')
+                return _box(i, S), [Eq(a, b, name='gradL_eq_gradSE_plus_M_Anew_dof%d' % k) for k, (a, b) in enumerate(zip(flat(gL), rhs))]
+            return _box(i, S), Eq(gL, rhs, name='gradL_eq_gradSE_plus_M_Anew')
         c.prove('balance' + tag, spec, cap=cap, order=('core', 'nlsat'))
+
+    def run_hessian(S, tag):
+        # the separately coded element Hessian (stiffness/preconditioner path) is the Hessian of the same algorithmic energy
+        def fh(X, E, nu, rho, beta, gamma, U, Up, dt):
+            d = S.dyn(X, E, nu, rho, beta, gamma)
+            H = jax.hessian(lambda u: d.compute_algorithmic_energy(u, Up, S.state, dt))(U)
+            return H, d.compute_element_hessians(U, Up, S.state, dt)[0]
+        Z = S.Z
+        exh = dict(X=S.Xex, **EX_PAR, U=Z + 0.1, Up=Z - 0.2, dt=0.1)
+        smph = lambda rng: [S.rand_tri(rng)] + _params(rng) + [rng.normal(size=Z.shape) for _ in range(2)] + [rng.uniform(0.05, 1.0)]
+        ch = Case(h, fh, exh, sampler=smph, label='element_hessian' + tag, validate=3 if not tag else 1)
+        ch.prove('hessian' + tag, lambda i, o: (_box(i, S), Eq(o[1], o[0], name='element_hessian_is_hessian_of_algorithmic_energy')),
+                 cap=60, order=('core', 'nlsat'))
+
     run(Setup(), '', 60, False)
     run(Setup(qdeg=1), '_1pt', 60, False)      # a rule below degree 2p: shows inconsistent quadrature between the energies
+    run_hessian(Setup(), '')
+    # axisymmetric mode: every closure must use the same (axisymmetric) kinematics and the 2*pi*r weighted volumes
+    AX = AXI_SPLIT
+    run(Setup(mode='axisymmetric'), '_axi', 60, AX)
+    run_hessian(Setup(mode='axisymmetric'), '_axi')
     if h.thorough():
         run(Setup(degree=2), '_P2', 60, True)
-
-    # the separately coded element Hessian (stiffness/preconditioner path) is the Hessian of the same algorithmic energy
-    S = Setup()
-
-    def fh(X, E, nu, rho, beta, gamma, U, Up, dt):
-        d = S.dyn(X, E, nu, rho, beta, gamma)
-        H = jax.hessian(lambda u: d.compute_algorithmic_energy(u, Up, S.state, dt))(U)
-        return H, d.compute_element_hessians(U, Up, S.state, dt)[0]
-    Z = S.Z
-    exh = dict(X=onp.asarray(REF), **EX_PAR, U=Z + 0.1, Up=Z - 0.2, dt=0.1)
-    smph = lambda rng: [_rand_tri(rng)] + _params(rng) + [rng.normal(size=Z.shape) for _ in range(2)] + [rng.uniform(0.05, 1.0)]
-    ch = Case(h, fh, exh, sampler=smph, label='element_hessian')
-    ch.prove('hessian', lambda i, o: (_box(i), Eq(o[1], o[0], name='element_hessian_is_hessian_of_algorithmic_energy')),
-             cap=60, order=('core', 'nlsat'))
+        run(Setup(qdeg=1, mode='axisymmetric'), '_axi_1pt', 60, AX)
 
 
 # =========================================================================================== O3
@@ -337,9 +359,10 @@ def o4(h):
     — symbolic vertices and density"""
     _encoded(h)
     h.bounds('one triangle with symbolic vertices (signed area > 0), rho > 0, V: all reals; '
-             'P1 with the 3-point and 1-point rules, straight-sided P2 with the 3-point rule (quick); P2 with the 6-point rule (thorough)')
+             'P1 with the 3-point and 1-point rules, straight-sided P2 with the 3-point rule, and P1 with both rules on the AXISYMMETRIC function '
+             'space (vertex radii > 0; blocks sum to rho * volume of revolution = rho*2*pi*area*centroid radius) (quick); P2 with the 6-point rule (thorough)')
     h.outside('element order > 2; spatially varying density (the code assumes homogeneous density); positive definiteness is not claimed for '
-              'under-integrated masses (P1/1-point, P2/3-point: singular by construction)')
+              'the axisymmetric mass (solver unknown at 60 s) nor for under-integrated masses (P1/1-point, P2/3-point: singular by construction)')
 
     def run(S, tag, definite):
         n = S.nn
@@ -348,18 +371,20 @@ def o4(h):
             d = S.dyn(X, 1.0, 0.25, rho, 0.25, 0.5)
             M = d.compute_element_masses()[0]
             return M, jax.grad(d.compute_output_kinetic_energy)(V), d.compute_output_kinetic_energy(V)
-        ex = dict(X=onp.asarray(REF), rho=1.5, V=S.Z + 0.3)
-        smp = lambda rng: [_rand_tri(rng), rng.uniform(0.5, 2.0), rng.normal(size=(n, 2))]
+        ex = dict(X=S.Xex, rho=1.5, V=S.Z + 0.3)
+        smp = lambda rng: [S.rand_tri(rng), rng.uniform(0.5, 2.0), rng.normal(size=(n, 2))]
         c = Case(h, f, ex, sampler=smp, label='masses' + tag, validate=3 if not tag else 1)
 
         def spec(i, o):
             M, gK, KE = o
             X, rho, V = i['X'], s0(i['rho']), i['V']
             ra = v_mul(rho, v_mul(0.5, area2(X)))
+            if S.axi:   # volume of revolution: 2*pi * area * centroid radius (2*pi = the code's binary64 constant)
+                ra = v_mul(ra, v_mul(TWO_PI / 3.0, v_sum([X[0, 0], X[1, 0], X[2, 0]])))
             blocks = {(k, l): v_sum([M[a, k, b, l] for a in range(n) for b in range(n)]) for k in range(2) for l in range(2)}
             MV = [v_sum([v_mul(M[a, k, b, l], V[b, l]) for b in range(n) for l in range(2)]) for a in range(n) for k in range(2)]
             idx = [(a, k, b, l) for a in range(n) for k in range(2) for b in range(n) for l in range(2)]
-            return _box(i), [
+            return _box(i, S), [
                 Le([v_abs(v_sub(blocks[0, 0], ra)), v_abs(v_sub(blocks[1, 1], ra))], v_mul(1e-12, v_abs(ra)), name='component_blocks_sum_to_rho_area', scale=ra),
                 Eq([blocks[0, 1], blocks[1, 0]], 0.0, name='cross_component_blocks_vanish'),
                 Eq([M[a, k, b, l] for a, k, b, l in idx], [M[b, l, a, k] for a, k, b, l in idx], name='symmetric'),
@@ -370,12 +395,14 @@ def o4(h):
         if definite:
             def spec_pd(i, o):
                 nz = v_not(v_and(*[v_eq(x, 0.0) for x in flat(i['V'])]))
-                return _box(i) + [nz], [Holds(v_lt(0.0, s0(o[2])), name='kinetic_energy_positive_definite')]
+                return _box(i, S) + [nz], [Holds(v_lt(0.0, s0(o[2])), name='kinetic_energy_positive_definite')]
             c.prove('mass' + tag, spec_pd, cap=60, order=('nlsat', 'core'))
     run(Setup(), '', True)
     # rules of degree < 2p (the repository's own choice is degree 2(p-1)): reported KE must still be the form of the SAME mass
     run(Setup(qdeg=1), '_1pt', False)
     run(Setup(degree=2), '_P2_3pt', False)
+    run(Setup(mode='axisymmetric'), '_axi', False)   # positive definiteness with the symbolic 2*pi*r weights: unknown at 60 s, not claimed
+    run(Setup(qdeg=1, mode='axisymmetric'), '_axi_1pt', False)
     if h.thorough():
         run(Setup(degree=2, qdeg=4), '_P2_6pt', True)
 
@@ -425,12 +452,12 @@ def _step_fn(S, dm, fixed=None):
     return f
 
 
-def _step_args(dm, rng=None):
+def _step_args(dm, rng=None, S=None):
     nu_, nb = dm.get_unknown_size(), dm.get_bc_size()
     if rng is None:
-        return dict(X=onp.asarray(REF), E=1.0, nu=0.3, rho=1.5, Uu=onp.full(nu_, 0.1), Vu=onp.full(nu_, -0.2), Au=onp.full(nu_, 0.3),
+        return dict(X=onp.asarray(REF) if S is None else S.Xex, E=1.0, nu=0.3, rho=1.5, Uu=onp.full(nu_, 0.1), Vu=onp.full(nu_, -0.2), Au=onp.full(nu_, 0.3),
                     Un=onp.full(nu_, 0.05), Ub=onp.full(nb, 0.2), dt=0.1)
-    return [_rand_tri(rng)] + _params(rng)[:3] + [rng.normal(size=nu_) for _ in range(4)] + [rng.normal(size=nb), rng.uniform(0.05, 1.0)]
+    return [_rand_tri(rng) if S is None else S.rand_tri(rng)] + _params(rng)[:3] + [rng.normal(size=nu_) for _ in range(4)] + [rng.normal(size=nb), rng.uniform(0.05, 1.0)]
 
 
 def _work(i, o):
@@ -441,12 +468,12 @@ def _work(i, o):
 
 def _o5_identity(h, S, bcs, cap=90, tag=''):
     dm = _dofs(S, bcs)
-    c = Case(h, _step_fn(S, dm), _step_args(dm), sampler=lambda rng: _step_args(dm, rng), label='step%s[%s]' % (tag, bcs), validate=2 if not tag else 1)
+    c = Case(h, _step_fn(S, dm), _step_args(dm, S=S), sampler=lambda rng: _step_args(dm, rng, S=S), label='step%s[%s]' % (tag, bcs), validate=2 if not tag else 1)
 
     def spec(i, o):
         r0, r1, r1b, E0, E1, Vn = o
         scale = v_add(1.0, v_add(v_abs(s0(E0)), v_abs(s0(E1))))
-        return _box(i), [Eq(v_sub(s0(E1), s0(E0)), _work(i, o), name='energy_change_is_work_of_free_dof_residuals', scale=scale)]
+        return _box(i, S), [Eq(v_sub(s0(E1), s0(E0)), _work(i, o), name='energy_change_is_work_of_free_dof_residuals', scale=scale)]
     c.prove('identity%s[%s]' % (tag, bcs), spec, cap=cap, order=('core', 'nlsat'))
     if BCSETS[bcs] and not tag:
         # with no constrained dof this is O2 itself (re-parametrised through the predictor: 17 s instead of 0.5 s), not repeated here
@@ -524,11 +551,11 @@ def o5(h):
     h.encoded(FunctionSpace.DofManager.create_field)
     sets = ['pin0_roller1y', 'free', 'all_y_fixed'] if not h.thorough() else list(BCSETS)
     h.bounds('one P1 triangle with SYMBOLIC vertices, symbolic E, nu, rho, dt (box: ' + BOX + '), free-dof state '
-             'Uu, Vu, Au, new displacement Un, time-independent essential values Ub: all reals; essential-bc sets: %s (0 to 6 free dofs), 3-point rule; also P1 with the 1-point rule and one straight-sided P2 triangle with the 3-point rule (9 free dofs; thorough: 12); '
+             'Uu, Vu, Au, new displacement Un, time-independent essential values Ub: all reals; essential-bc sets: %s (0 to 6 free dofs), 3-point rule; also P1 in AXISYMMETRIC mode (3-point rule, vertex radii > 0), P1 with the 1-point rule and one straight-sided P2 triangle with the 3-point rule (9 free dofs; thorough: 12); '
              'reachability witnesses of the hypotheses on concrete triangles %s x materials (E,nu,rho) %s'
              % (sets, sorted(TRIANGLES), sorted(MATERIALS.values())))
     h.outside('conservation over long histories follows by induction over this one-step identity (variable dt covered: dt is a free '
-              'variable); external loads; time-dependent essential boundary values; more than one element; nonlinear materials; '
+              'variable); external loads; time-dependent essential boundary values; more than one element; nonlinear materials; pressure projection; '
               'beta, gamma other than 1/4, 1/2')
     h.assume_note('O5: stationarity / balance imposed on the free dofs only',
                   'O5: the corollary query reasons over fresh scalars standing for the code terms of the identity (definitions dropped: sound, '
@@ -537,9 +564,11 @@ def o5(h):
         dm = _o5_identity(h, S, b)
         _o5_corollary(h, b, dm.get_unknown_size())
     # rules of degree < 2p (P1 / 1 point, P2 / 3 points = the repository's 2(p-1) choice): every energy must use the caller's rule
-    S1, S2 = Setup(qdeg=1), Setup(degree=2)
+    S1, S2, SA = Setup(qdeg=1), Setup(degree=2), Setup(mode='axisymmetric')
     for St, tag, bs in ((S1, '_1pt', ['pin0_roller1y'] + (['free'] if h.thorough() else [])),
-                        (S2, '_P2', ['pin0_roller1y'] + (['free'] if h.thorough() else []))):
+                        (S2, '_P2', ['pin0_roller1y'] + (['free'] if h.thorough() else [])),
+                        # axisymmetric mode (axisymmetric function space, vertex radii > 0): same kinematics in every energy
+                        (SA, '_axi', ['pin0_roller1y'] + (['all_y_fixed', 'free'] if h.thorough() else []))):
         for b in bs:
             dm = _o5_identity(h, St, b, tag=tag)
             _o5_corollary(h, tag[1:] + '/' + b, dm.get_unknown_size())
